@@ -23,6 +23,7 @@ import (
 
 	"github.com/dadrus/heimdall/verif/engine"
 	"github.com/dadrus/heimdall/verif/engine/sched"
+	"github.com/dadrus/heimdall/verif/props/fsstart"
 	"github.com/dadrus/heimdall/verif/hx"
 )
 
@@ -454,6 +455,9 @@ func run(c *engine.Ctx) {
 		engine.RunRacePass(c)
 	}
 
+	// changes made while a provider starts are neither lost nor applied twice
+	fsstart.RunAll(c)
+
 	bound := 2
 	if !c.Quick() {
 		bound = 3
@@ -542,6 +546,12 @@ func replay(c *engine.Ctx, raw json.RawMessage) {
 
 	if json.Unmarshal(raw, &probe) == nil && probe.RacePass {
 		engine.RunRacePass(c)
+
+		return
+	}
+
+	if fsstart.IsCase(raw) {
+		fsstart.Replay(c, raw)
 
 		return
 	}
